@@ -15,6 +15,10 @@ Clause → theorem
 | every custom wasm message: the extracted guard is the expected one (20 handlers, both networks, right contract index) | `wasm_guards_expected`, `wasm_authorized_iff_designated` |
 | kill switch admin-only | `admin_only_killswitch`, `admin_guard_blocks` |
 | table sizes / spot entries | `table_sizes`, `handler_names_pinned`, `spot_*`, `every_handler_has_exit` |
+| SCOPE: every entry point through which state can be changed from outside is inventoried and classified by who may call it (70 messages of all modules = the protobuf MsgServer interfaces, 26 proposal contents, 20 wasm variants, 9 IBC callbacks, 13 block hooks, 3 migrations, 23 upgrade handlers) | `entry_points_classified`, `entry_point_counts`, `msg_entry_points_complete`, `spot_entry_points`, `unwired_entry_points_pinned`, `ibc_callbacks_pinned` |
+| every position-naming entry point is owner-guarded or on the reviewed list; no non-message entry point takes a position id | `position_naming_entry_points_guarded`, `nonmsg_position_readers_pinned` |
+| every privileged entry point (admin / gov / contract) has its authority guard before its first write; which ones are privileged | `privileged_entry_points_guarded`, `privileged_entry_points_pinned`, `proposals_pinned`, `gov_only_blocks`, `gov_authority_runs_handler` |
+| the keeper functions behind proposal handlers and wasm variants are reached from no message handler (two reviewed fee-paying exceptions) | `privileged_targets_reach_pinned` |
 
 The tables come from `Gen/Guards.lean`, regenerated from /repo on every run: dropping an owner check, re-ordering it behind an
 early successful return, changing a chain id or a contract index makes one of the `decide` obligations fail to compile.
